@@ -296,7 +296,9 @@ func c17History(c *Ctx, idx int, seed int64, sp *e2eSpec, dir string) {
 	for _, e := range o.events {
 		switch e.Kind {
 		case "scan":
-			lastScan = e.Seq
+			// the version a scan finds is the file's state at some moment between the
+			// scan's begin (B) and its end (Seq): a write in that window may or may not be in it
+			lastScan = int(e.B)
 		case "cache_add":
 			// what gets cached is the (size, mtime) the preceding scan saw
 			lastAdd[e.Name] = lastScan
@@ -309,7 +311,7 @@ func c17History(c *Ctx, idx int, seed int64, sp *e2eSpec, dir string) {
 	scanOf := 0
 	for _, e := range o.events {
 		if e.Kind == "scan" {
-			scanOf = e.Seq
+			scanOf = int(e.B)
 		}
 		if e.Kind != "q_push" || e.S != "plain" {
 			continue
